@@ -6,7 +6,7 @@ From Coq Require Import Strings.Byte NArith ZArith List.
 From Coq Require Import Strings.String.
 Import ListNotations.
 Local Open Scope list_scope.
-From LLIR Require Import Lib.Bytes Lib.Radix Model.Natsort Model.Assemble Model.Writer Gen.Enums Proofs.EnumProofs Model.IntLit Model.Enc Model.Types Model.TypeString Model.Gep Model.ResultType Model.Numbering Model.MetadataIDs Model.Skeleton Model.History.
+From LLIR Require Import Lib.Bytes Lib.Radix Model.Natsort Model.Assemble Model.Writer Gen.Enums Proofs.EnumProofs Model.IntLit Model.Enc Model.Types Model.TypeString Model.Gep Model.ResultType Model.Numbering Model.MetadataIDs Model.Skeleton Model.History Model.FloatBits Model.FloatX87 Model.FloatPPC.
 
 Definition byte_of_N_total (n : N) : byte := match Byte.of_N n with Some b => b | None => x00 end.
 (* C19: run the chunks against a writer failing after k bytes: (size, failed?, delivered, calls) *)
@@ -111,6 +111,29 @@ Definition h_rename (p : nat) (n : bool) : op := Rename p n.
 Definition h_print : op := Print.
 Definition h_query : op := Query.
 Definition c14_final (h : list op) (l : list item) : option (list item) := final_print h l.
+(* C10: values cross as (code, sign, mantissa, exponent): 0 zero, 1 finite, 2 inf, 3 nan, 4 panic *)
+Definition fval_code (v : fval) : nat * bool * Z * Z :=
+  match v with
+  | FZero s => (0, s, 0%Z, 0%Z) | FFin s m e => (1, s, Zpos m, e) | FInf s => (2, s, 0%Z, 0%Z) | FNaN s => (3, s, 0%Z, 0%Z)
+  end.
+Definition c10_fmt (k : nat) : fmt := match k with 0 => binary16 | 1 => binary64 | _ => binary128 end.
+Definition c10_dec_ieee (k : nat) (bits : Z) := fval_code (decode (c10_fmt k) bits).
+Definition c10_rt_ieee (k : nat) (bits : Z) : Z := encode (c10_fmt k) (decode (c10_fmt k) bits).
+Definition c10_dec80 (bits : Z) := fval_code (decode80 (0 <? bits / 2 ^ 79)%Z ((bits / 2 ^ 64) mod 2 ^ 15)%Z (bits mod 2 ^ 64)%Z).
+Definition c10_rt80 (bits : Z) : option Z :=
+  match encode80 (decode80 (0 <? bits / 2 ^ 79)%Z ((bits / 2 ^ 64) mod 2 ^ 15)%Z (bits mod 2 ^ 64)%Z) with
+  | Some (s, E, m) => Some (((if s then 2 ^ 15 else 0) + E) * 2 ^ 64 + m)%Z
+  | None => None
+  end.
+Definition c10_dec_ppc (bits : Z) : nat * bool * Z * Z :=
+  match decode_ppc (bits / 2 ^ 64)%Z (bits mod 2 ^ 64)%Z with PVal v => fval_code v | PPanic => (4%nat, false, 0%Z, 0%Z) end.
+(* 0 parse panic, 1 print panic, 2 ok *)
+Definition c10_rt_ppc (bits : Z) : nat * Z :=
+  match decode_ppc (bits / 2 ^ 64)%Z (bits mod 2 ^ 64)%Z with
+  | PPanic => (0%nat, 0%Z)
+  | PVal v => match encode_ppc v with Some (a, b) => (2%nat, (a * 2 ^ 64 + b)%Z) | None => (1%nat, 0%Z) end
+  end.
+Definition hex_of_Z (z : Z) : bytes := Radix.print_hex_N (Z.to_N z).
 Definition sort_ids (l : list Z) : list Z := isort Z.ltb l.
 
 Extraction "model.ml" byte_of_N_total Byte.to_N
@@ -119,4 +142,5 @@ Extraction "model.ml" byte_of_N_total Byte.to_N
   Enc.global_name Enc.local_name Enc.label_name Enc.type_name Enc.comdat_name Enc.metadata_name Enc.escape_ident Enc.escape_string Enc.quote Enc.unescape
   Enc.global_id Enc.local_id Enc.label_id c11_dec_global c11_dec_local c11_dec_label c11_dec_type c11_dec_comdat c11_dec_metadata
   TypeString.ty_string TypeString.equal_go
-  gep_result gep_inst gep_parse gep_expr mk_index c06_ir c06_asm mk_item c08_assign Numbering.it_id mk_gent c08_print_after_parse c17_assign sk_translate sk_translate_rev mk_top mk_use sk_name sk_num sk_ns sk_kind h_insert h_remove h_rename h_print h_query c14_final Numbering.it_named.
+  gep_result gep_inst gep_parse gep_expr mk_index c06_ir c06_asm mk_item c08_assign Numbering.it_id mk_gent c08_print_after_parse c17_assign sk_translate sk_translate_rev mk_top mk_use sk_name sk_num sk_ns sk_kind h_insert h_remove h_rename h_print h_query c14_final Numbering.it_named
+  c10_dec_ieee c10_rt_ieee c10_dec80 c10_rt80 c10_dec_ppc c10_rt_ppc hex_of_Z.
